@@ -46,6 +46,9 @@ func (w *World) genTxs(parent *TNode, maxTx int, pBad int) (txs []*transaction.T
 		return nil, nil, ""
 	}
 	ntx := w.rng.Intn(maxTx + 1)
+	if w.forceKind != 0 {
+		ntx = 1
+	}
 	if ntx == 0 {
 		return nil, nil, ""
 	}
@@ -61,6 +64,9 @@ func (w *World) genTxs(parent *TNode, maxTx int, pBad int) (txs []*transaction.T
 		pendingDelegates := map[uint64]bool{}
 		for k := 0; k < ntx; k++ {
 			wi := w.rng.Intn(len(w.wallets))
+			if w.forceKind != 0 {
+				wi = w.forceWallet
+			}
 			wal := w.wallets[wi]
 			s := v.State(wal.Addr)
 			if used[wi] > 0 && w.rng.Intn(3) != 0 {
@@ -103,6 +109,9 @@ func (w *World) genTxs(parent *TNode, maxTx int, pBad int) (txs []*transaction.T
 						kind = 4 + w.rng.Intn(2)
 					}
 				}
+			}
+			if w.forceKind != 0 {
+				kind = w.forceKind
 			}
 			corrupt := ""
 			if k == badAt {
